@@ -429,6 +429,10 @@ structure Flags where
   /-- `close()`: the guard of the flag reset mentions only `self._write` and the flag
       (`closeReset` above takes any further operand as True) -/
   closeResetPure : Bool
+  /-- `import_process_tensor` opens the file through `FileProcessTensor(mode="read")` as its
+      first statement: no reader-side state (cache, set of verified paths) is consulted first,
+      so what a reader observes is a function of the file's content only -/
+  importOpensFirst : Bool
 
 /-! ## 5. Process tensors in memory -/
 
